@@ -56,15 +56,20 @@ R.contract("PeerConnection.__dispatch_message", params={"self": "PeerConnection"
 R.macro("rb", ["c"], "c._read_buffer")
 R.macro("hlen", ["b"], "u32(b[0:4]) % 2**24")
 R.contract("PeerConnection.work_read_queue", params={"self": "PeerConnection", "_thread": "StoppableThread"},
+           requires=[("starts-empty", "rb(self) == b''")],
            raises=[], modifies=["self._read_buffer", "self._last_read", "self._last_msg", "self.state",
                                 "self._read_thread.stopped", "self._write_thread.stopped"] + _HANDLER_MODS,
            ghost_modifies=["list:self.g_dlog"],
            props=["C05", "C14"],
            note="thread target: raises nothing; the framing obligations are the loop clauses below")
-R.loop("PeerConnection.work_read_queue", 0, invariants=[("true", "True")],
+R.macro("stuck", ["b"], "len(b) < 20 or hlen(b) > len(b)")
+R.loop("PeerConnection.work_read_queue", 0,
+       invariants=[("no-complete-frame-left-waiting", "stuck(rb(self)) or self.state == %d" % CLOSED)],
+       local_kinds={"resume_waiting": "bool", "message": "Opt[Message]", "msg_header": "Opt[MessageHeader]"},
        modifies=["self._read_buffer", "self._last_read", "self._last_msg", "list:self.g_dlog"] + _HANDLER_MODS)
 R.loop("PeerConnection.work_read_queue", 1,
-       invariants=[("true", "True")],
+       invariants=[("waiting-only-when-stuck", "implies(resume_waiting, stuck(rb(self)))")],
+       local_kinds={"message": "Opt[Message]", "msg_header": "Opt[MessageHeader]"},
        step_ret=[("gives-up-only-on-impossible-length",
                   "len(prev(rb(self))) >= 20 and hlen(prev(rb(self))) < 20 and self.state == %d" % CLOSED)],
        decreases="ite(resume_waiting, 0, 1 + len(rb(self)))",
